@@ -13,6 +13,7 @@ import (
 	"image"
 	"io"
 	"io/ioutil"
+	"math/rand"
 	"net"
 	"net/http"
 	"net/http/httptest"
@@ -284,6 +285,7 @@ type refClient struct {
 	enc     []byte      // undecrypted bytes
 	plain   []byte      // decrypted, unparsed bytes
 	timeout time.Duration
+	seg     *rand.Rand // when set, every request is delivered in several TCP segments
 	Events  []refMsg // EVENT messages received so far (in order)
 	broken  string
 }
@@ -298,6 +300,29 @@ func (cl *refClient) send(b []byte) error {
 		b = cl.sess.Encrypt(b)
 	}
 	cl.conn.SetWriteDeadline(time.Now().Add(cl.timeout))
+	if cl.seg != nil && len(b) > 2 {
+		// deliver the request in 2-3 TCP segments cut at random offsets (Go sets TCP_NODELAY; the pause lets each
+		// piece arrive on its own)
+		cuts := []int{1 + cl.seg.Intn(len(b)-1)}
+		if len(b) > 10 && cl.seg.Intn(2) == 0 {
+			cuts = append(cuts, 1+cl.seg.Intn(len(b)-1))
+			if cuts[1] < cuts[0] {
+				cuts[0], cuts[1] = cuts[1], cuts[0]
+			}
+		}
+		prev := 0
+		for _, k := range append(cuts, len(b)) {
+			if k <= prev {
+				continue
+			}
+			if _, err := cl.conn.Write(b[prev:k]); err != nil {
+				return err
+			}
+			prev = k
+			time.Sleep(1500 * time.Microsecond)
+		}
+		return nil
+	}
 	_, err := cl.conn.Write(b)
 	return err
 }
